@@ -226,6 +226,31 @@ Qed.
 Definition no_symbol_pred_clash_full : strong_task -> Prop :=
   no_symbol_pred_clash tau_star_tot mu_tot simp_ht_tot simp_classic_tot.
 
+(* the premise is decidable: a boolean test on the model's own (pre-renaming) problems *)
+Definition no_clash_problemb (p : problem) : bool :=
+  forallb (fun a => forallb (fun s => negb (memb pred_dec (mkpred s 0) (problem_predicates p)))
+                            (symbols (pf_formula a))) (pb_formulas p).
+Lemma no_clash_problemb_ok p : no_clash_problemb p = true <-> no_clash_problem p.
+Proof.
+  unfold no_clash_problemb, no_clash_problem. rewrite forallb_forall. split.
+  - intros Hb a s Ha Hs. specialize (Hb a Ha). rewrite forallb_forall in Hb. specialize (Hb s Hs).
+    destruct (memb_spec pred_dec (mkpred s 0) (problem_predicates p)); [discriminate|assumption].
+  - intros Hn a Ha. apply forallb_forall. intros s Hs.
+    destruct (memb_spec pred_dec (mkpred s 0) (problem_predicates p)) as [Hin|]; [|reflexivity].
+    exfalso. exact (Hn a s Ha Hs Hin).
+Qed.
+Definition no_symbol_pred_clash_fullb (t : strong_task) : bool :=
+  let ta := transition_axioms (st_left t) (st_right t) in
+  let l := strong_side tau_star_tot mu_tot simp_ht_tot simp_classic_tot t (st_left t) in
+  let r := strong_side tau_star_tot mu_tot simp_ht_tot simp_classic_tot t (st_right t) in
+  no_clash_problemb (strong_pre "forward" ta "left" l "right" r) &&
+  no_clash_problemb (strong_pre "backward" ta "right" r "left" l).
+Lemma no_symbol_pred_clash_fullb_ok t : no_symbol_pred_clash_fullb t = true <-> no_symbol_pred_clash_full t.
+Proof.
+  unfold no_symbol_pred_clash_fullb, no_symbol_pred_clash_full, no_symbol_pred_clash, side.
+  cbv zeta. rewrite andb_true_iff, !no_clash_problemb_ok. reflexivity.
+Qed.
+
 Theorem C03_full_proof FI M (t : strong_task) pbs :
   strong_decompose_full t = SOk pbs -> no_symbol_pred_clash_full t ->
   (refutes_some FI M pbs <->
